@@ -10,6 +10,8 @@ ORACLE_TOL = 2e-5   # formula recomputed from the implementation's own sigmas / 
 UNDERFLOW = 1e-30
 
 
+REGEN = ("constants", "registry", "umapsrc")
+
 def graph_line(drv, r, k, lc, idx, dist):
     li, lf = gen.lc_split(lc)
     n, c = idx.shape
@@ -102,6 +104,8 @@ def oracle(ctx, G, r, idx, dist, sig, rho, case, n):
 
 
 def run(ctx):
+    import srcval as _srcval2
+    _srcval2.validate_umap(ctx, 200 if ctx.thorough else 40, ctx.rng, only="compute_membership_strengths")   # translated kernel vs the Python source
     import umap
     from umap.umap_ import fuzzy_simplicial_set, nearest_neighbors
     from sklearn.metrics import pairwise_distances
